@@ -22,8 +22,10 @@ func runC09(c *core.Ctx) {
 	h.viewLowerBound("C09.3 view-lower-bound")
 	c.Clause("C09.4 fallback to snapshot installation when the entry is gone")
 	h.snapshotFallback("C09.4 snapshot-fallback")
+	h.requestsFromOwnLog("C09.4b requests-at-snapshot-boundary")
 	c.Clause("C09.5 follower keeps a matching suffix, otherwise discards and restores")
 	h.installSnapshotHandler("C09.5 install-handler")
+	h.staleSnapshotIgnored("C09.6 stale-snapshot-ignored")
 }
 
 func runC12(c *core.Ctx) {
@@ -47,6 +49,8 @@ func runC10(c *core.Ctx) {
 	h.sinkPublishOrder("C10.2 sink-publish")
 	c.Clause("C10.3 install handler publishes before it resets/compacts")
 	h.installSnapshotHandler("C10.3 install-handler")
+	c.Clause("C10.3b an already published snapshot is never re-created (its data file would be truncated while its meta file is published)")
+	h.staleSnapshotIgnored("C10.3b stale-snapshot-ignored")
 	c.Clause("C10.4 bootstrap: append -> flush -> term")
 	h.bootstrapOrder("C10.4 bootstrap-order")
 	c.Clause("C10.5 doTakeSnapshot: Persist -> Flush -> done(err)")
